@@ -71,8 +71,8 @@ def dropWait (c : C) (id : Nat) : C :=
 /-- one resent entry is counted against the peer's Receive Maximum -/
 def countOne (c : C) : C :=
   if c.s.sendMax.isSome then
-    (if c.s.sendCount ≥ 65535 then c.setPanic "core.rs:send_stored:publish_send_count+=1" else c)
-    |> fun c => { c with s := { c.s with sendCount := (c.s.sendCount + 1) % 65536 } }
+    (if c.s.sendCount ≥ 4294967295 then c.setPanic "core.rs:send_stored:publish_send_count+=1" else c)
+    |> fun c => { c with s := { c.s with sendCount := (c.s.sendCount + 1) % 4294967296 } }
   else c
 
 theorem sendStoredLoop_cons (c : C) (id : Nat) (p : Pkt) (rest : List (Nat × Pkt)) :
@@ -98,11 +98,11 @@ theorem sendStoredLoop_cons (c : C) (id : Nat) (p : Pkt) (rest : List (Nat × Pk
   unfold countOne; (repeat' split) <;> rfl
 theorem countOne_none (c : C) (h : c.s.sendMax = none) : countOne c = c := by
   unfold countOne; simp [h]
-theorem countOne_some (c : C) (h : c.s.sendMax.isSome) (hlt : c.s.sendCount < 65535) :
+theorem countOne_some (c : C) (h : c.s.sendMax.isSome) (hlt : c.s.sendCount < 4294967295) :
     (countOne c).s.sendCount = c.s.sendCount + 1 ∧ (countOne c).s.panic = c.s.panic := by
   unfold countOne
-  have h1 : ¬ c.s.sendCount ≥ 65535 := by omega
-  have h2 : (c.s.sendCount + 1) % 65536 = c.s.sendCount + 1 := Nat.mod_eq_of_lt (by omega)
+  have h1 : ¬ c.s.sendCount ≥ 4294967295 := by omega
+  have h2 : (c.s.sendCount + 1) % 4294967296 = c.s.sendCount + 1 := Nat.mod_eq_of_lt (by omega)
   simp [h, h1, h2]
 
 theorem sendStoredLoop_sub (c : C) (l : List (Nat × Pkt)) : (sendStoredLoop c l).2.Sublist l := by
@@ -161,9 +161,9 @@ theorem sendStoredLoop_count_none (c : C) (l : List (Nat × Pkt)) (h : c.s.sendM
       have := ih (c.push (.send p none)) (by simpa using h)
       simpa using this
 
-/-- counting: every resent entry is counted once; no wrap while the total stays ≤ 65535 -/
+/-- counting: every resent entry is counted once; no wrap while the total stays ≤ 4294967295 -/
 theorem sendStoredLoop_count (c : C) (l : List (Nat × Pkt)) (h : c.s.sendMax.isSome)
-    (hb : c.s.sendCount + (sendStoredLoop c l).2.length ≤ 65535) :
+    (hb : c.s.sendCount + (sendStoredLoop c l).2.length ≤ 4294967295) :
     (sendStoredLoop c l).1.s.sendCount = c.s.sendCount + (sendStoredLoop c l).2.length ∧
       cpOf (sendStoredLoop c l).1.s.panic = cpOf c.s.panic := by
   induction l generalizing c with
